@@ -95,7 +95,7 @@ def build(rnd, profile, n_trees, sels_per_tree, feats=None, depth=2, ast=True, l
         for _ in range(sels_per_tree):
             if ast:
                 f = feats or {'core': ('core',), 'ns': ('core', 'ns'), 'case': ('core', 'case'),
-                              'contains': ('core', 'contains')}.get(profile, ('core',))
+                              'contains': ('core', 'contains'), 'langdir': ('core', 'lang')}.get(profile, ('core',))
                 pl = dict(pools)
                 ag = gen_selectors.AGen(rnd, prefixes=prefixes, feats=f, **pl)
                 s, a = ag.selector(depth)
